@@ -36,7 +36,7 @@ def argv_of(c):
     if v == "uniq":
         return [v, "-g", ",".join(g)] + o
     if v == "stats1":
-        return [v, "-a", ",".join(acc_name(x) for x in a)] + fl + gl + (["-w", str(n)] if n else [])
+        return [v, "-a", ",".join(acc_name(x) for x in a)] + fl + gl + (["-w", str(n)] if n else []) + o
     if v == "merge-fields":
         return [v, "-a", ",".join(acc_name(x) for x in a)] + ([] if ("-r" in o or "-c" in o) else fl) + o
     if v == "step":
